@@ -26,8 +26,10 @@
     groups an argument names ([Arg::group(s)]; [_build_self] makes the [ArgGroup]s from them), so the former parameter
     [bl] is gone: [vn] of an option spec, [arg_is_last] / [arg_terminator] of [write_positionals_of], and
     [Command::get_arg_conflicts_with] -- blacklist entries that name a GROUP expand to its members; an entry that cannot be
-    resolved is the [panic!] / [expect] of the Rust code, a visible [None] ([arg_conflicts_opt]; [get_args_of] returns
-    [None] when any option or flag of the command has such an entry).  Outside the model: explicit [ArgGroup] declarations
+    resolved is the [panic!] of the Rust code, a visible [None] ([arg_conflicts_opt]; [get_args_of] returns
+    [None] when any option or flag of the command has such an entry).  The global branch follows the REPAIRED code (finding
+    zsh-global-conflicts-group: it used to consult arguments only and [expect]): it falls back to the groups of the command and of the subcommands
+    that contain the argument.  Outside the model: explicit [ArgGroup] declarations
     ([Command::group]: nested groups, member order other than argument order) -- no spec format expresses them. *)
 From ClapModel Require Import Base.Bytes Complete.AotTree Complete.BashModel Complete.FishModel Escape.EscapeModel.
 From Coq Require Import String.
@@ -152,13 +154,30 @@ Definition conflict_targets (x : cmd) (id : bytes) : option (list arg) :=
         end
       else None
   end.
-(** [Command::get_global_arg_conflicts_with]: every entry is looked up among the ARGUMENTS of the command and of the
-    subcommands that contain the argument -- groups are not consulted -- with
-    [expect("Command::get_arg_conflicts_with: The passed arg conflicts with an arg unknown to the cmd")] *)
+(** [Command::get_global_arg_conflicts_with] (after the repair of finding zsh-global-conflicts-group): every entry is
+    looked up among the ARGUMENTS of the command and of the subcommands that contain the argument; if there is none, the
+    first of these commands -- [once(self).chain(get_subcommands_containing(arg))] -- that has a GROUP of that id expands
+    it to its members ([cmd.find(id).expect(INTERNAL_ERROR_MSG)] each), as the non-global branch does for the command; else
+    [panic!("Command::get_arg_conflicts_with: The passed arg conflicts with an arg unknown to the cmd")] *)
+Definition group_targets (x : cmd) (id : bytes) : option (list arg) :=
+  match unroll_args_in_group x id with
+  | Some ids => map_opt (find_arg x) ids
+  | None => None
+  end.
+Definition global_conflict_targets (x : cmd) (a : arg) (id : bytes) : option (list arg) :=
+  match find (fun y => beq (a_id y) id) (c_args x ++ flat_map c_args (subcommands_containing x (a_id a))) with
+  | Some y => Some [y]
+  | None =>
+      match find (fun c => find_group c id) (x :: subcommands_containing x (a_id a)) with
+      | Some c => group_targets c id
+      | None => None
+      end
+  end.
 Definition get_global_arg_conflicts_with (x : cmd) (a : arg) : option (list arg) :=
-  map_opt (fun id => find (fun y => beq (a_id y) id)
-                          (c_args x ++ flat_map c_args (subcommands_containing x (a_id a))))
-          (a_blacklist a).
+  match map_opt (global_conflict_targets x a) (a_blacklist a) with
+  | Some ls => Some (List.concat ls)
+  | None => None
+  end.
 (** [Command::get_arg_conflicts_with]; [None] = the Rust code panics *)
 Definition get_arg_conflicts_with (x : cmd) (a : arg) : option (list arg) :=
   if a_global a then get_global_arg_conflicts_with x a
